@@ -962,7 +962,7 @@ def run(chk):
         n = len(case["content"])
         return ["cmd:%s-lines:%s" % ("0" if n == 0 else "1" if n == 1 else "n", out[0]),
                 "cmd:extra=%s" % ("none" if case["extra"] is None else len(case["extra"]))]
-    cases = [gen_cmd_case(rng) for _ in range(3000 * mult)]
+    cases = [gen_cmd_case(rng) for _ in range(4000 * mult)]
     for c in cases:
         chk.case(("cmd", json.dumps(c, sort_keys=True)), bool(c["content"]))
     run_stream(chk, "command", cases, cmd_tag)
@@ -992,8 +992,8 @@ def run(chk):
         def f(case, out):
             return ["%s:%s" % (prefix, out[0]), "%s:intent=%s" % (prefix, case.get("intent", "ign" if case.get("ign") else "plain"))]
         return f
-    cases = [gen_json_case(rng) for _ in range(1500 * mult)]
-    for _ in range(150 * mult):
+    cases = [gen_json_case(rng) for _ in range(2500 * mult)]
+    for _ in range(250 * mult):
         c = gen_json_case(rng)
         cases.append({"op": "json", "content": "\n".join(c["content"]), "noise": 0, "intent": "str"})
     cases.append({"op": "json", "content": ["[" * 100000], "noise": 0, "intent": "deep"})
@@ -1003,7 +1003,7 @@ def run(chk):
     chk.sample(cases[3])
 
     # ---- 5. YAML
-    cases = [gen_yaml_case(rng) for _ in range(1000 * mult)]
+    cases = [gen_yaml_case(rng) for _ in range(1500 * mult)]
     for c in cases:
         chk.case(("yaml", json.dumps(c, sort_keys=True)), bool(c["content"]))
     run_stream(chk, "yaml", cases, doc_tag("yaml"))
@@ -1015,7 +1015,7 @@ def run(chk):
         return ["get:term=%s" % ("str" if isinstance(t, str) else "list%d" % min(len(t), 2)),
                 "get:num=%s,rev=%d" % ("none" if case["num"] is None else "neg" if case["num"] < 0 else min(case["num"], 4), case["reverse"]),
                 "get:hits=%s" % ("TE" if isinstance(out[0], str) else min(len(out[0]), 3))]
-    cases = [gen_get_case(rng) for _ in range(2500 * mult)]
+    cases = [gen_get_case(rng) for _ in range(3500 * mult)]
     for c in cases:
         chk.case(("get", json.dumps(c, sort_keys=True)), bool(c["lines"]))
     run_stream(chk, "get", cases, get_tag)
@@ -1025,7 +1025,7 @@ def run(chk):
     def after_tag(case, out):
         return ["after:fmt=%s" % case["fmt"], "after:result=%s" % (out if isinstance(out, str) else "n%d" % min(len(out), 3)),
                 "after:oracle=%s" % ("applied" if after_oracle_applicable(case) else "n/a")]
-    cases = [gen_after_case(rng) for _ in range(3000 * mult)]
+    cases = [gen_after_case(rng) for _ in range(5000 * mult)]
     for c in cases:
         chk.case(("after", json.dumps(c, sort_keys=True)), any(l["t"] for l in c["lines"]))
     run_stream(chk, "get_after", cases, after_tag)
@@ -1033,6 +1033,10 @@ def run(chk):
 
 
 def replay(data):
+    if "case" not in data:      # a broken-tie replay: names the theorem / stream that no longer checks
+        print(json.dumps(data.get("broken"), indent=1, ensure_ascii=False)[:4000])
+        print("no failing input was recorded; re-run ./check C14 to see whether the tie is still broken")
+        return 1
     c = data["case"]
     print("replaying", json.dumps(c, ensure_ascii=False)[:2000])
     if c.get("op") == "shipped":
